@@ -720,19 +720,24 @@ func (n *Node) GetHandle() *Handle {
 }
 
 func (n *Node) callFinalizer() {
+	// A forced Cache.Close finalizes nodes while their handles may still be
+	// released concurrently: take the value and the delete funcs exactly once.
+	n.mu.Lock()
+	value, delFuncs := n.value, n.delFuncs
+	n.value, n.delFuncs = nil, nil
+	n.mu.Unlock()
+
 	// Call releaser.
-	if n.value != nil {
-		if r, ok := n.value.(util.Releaser); ok {
+	if value != nil {
+		if r, ok := value.(util.Releaser); ok {
 			r.Release()
 		}
-		n.value = nil
 	}
 
 	// Call delete funcs.
-	for _, f := range n.delFuncs {
+	for _, f := range delFuncs {
 		f()
 	}
-	n.delFuncs = nil
 }
 
 func (n *Node) unRefInternal(updateStat bool) {
